@@ -100,6 +100,38 @@ Fixpoint crun (s : cstate) (ops : list cop) : list pres :=
   | o :: r => let '(s', p) := cstep s o in p :: crun s' r
   end.
 
+(* ---- request level: dispatcher.ServeHTTP for the requests of ONE policy (explicit subset [ups]) ----
+   MatchAttributes -> Pin(flow control).TryAcquire() -> (false: 429, return) -> endpointPicker.Pop() -> forward.
+   A refused (429) request returns BEFORE Pop: it does not consume a turn.  Every forwarded request does
+   exactly one Pop, and the endpoint that Pop returns is the one the request is sent to. *)
+Inductive qop :=
+| QReq                   (* one request of the policy through the dispatcher *)
+| QLimit (zero : bool).  (* Sync of the policy's flow-control schema: max-in-flight 0 (refuse all) / wide open;
+                            servers unchanged, so no cursor is touched *)
+Inductive qres := QRefused | QOut (p : pres) | QNone.
+Record qstate := { qcur : cursors; qzero : bool }.
+
+Definition qstep (ups : eplist) (ok : Z -> bool) (s : qstate) (o : qop) : qstate * qres :=
+  match o with
+  | QLimit b => ({| qcur := qcur s; qzero := b |}, QNone)
+  | QReq => if qzero s then (s, QRefused)
+            else let '(c, p) := pop (qcur s) ups ok in ({| qcur := c; qzero := false |}, QOut p)
+  end.
+
+Fixpoint qrun (ups : eplist) (ok : Z -> bool) (s : qstate) (ops : list qop) : list qres :=
+  match ops with
+  | [] => []
+  | o :: r => let '(s', x) := qstep ups ok s o in x :: qrun ups ok s' r
+  end.
+
+(* where the forwarded requests went, in order *)
+Fixpoint forwarded (rs : list qres) : list pres :=
+  match rs with
+  | [] => []
+  | QOut p :: r => p :: forwarded r
+  | _ :: r => forwarded r
+  end.
+
 (* ---- index level: which position of the ready list the i-th pick after cursor value a selects ---- *)
 Definition idx (k a : Z) (i : Z) : Z := wrapu64 (a + i) mod k.
 (* number of picks among the next n (i = 1..n) that select position j *)
